@@ -200,6 +200,14 @@ def _replay(run, ctx, case, ELFFile):
         got = list(isec.iter_symbols())
         if len(got) != len(case['info']):
             bad('syminfo.count', len(case['info']), len(got))
+        a, b = isec.iter_symbols(), isec.iter_symbols()          # two iterators interleaved with symbol table reads
+        other = []
+        for x in a:
+            symsec.get_symbol(0)
+            y = next(b, None)
+            other.append((x.name, dict(x.entry)) == (y.name, dict(y.entry)) if y is not None else False)
+        if len(other) != len(got) or not all(other) or [(x.name, dict(x.entry)) for x in isec.iter_symbols()] != [(x.name, dict(x.entry)) for x in got]:
+            bad('syminfo.patterns', 'the same entries from every iterator', 'iterators disagree')
         for i, (e, s) in enumerate(zip(case['info'], got), 1):
             wname = ctx.strs[syms[i][0] - 1]
             if s.name != wname:
@@ -397,7 +405,7 @@ def check(run):
             seen.add(key)
             nontriv = len(case['syms']) > 1
             run.count(key, nontrivial=nontriv)
-            if nontriv and len(run.samples) < 3 and run.evaluations % 997 == 5:
+            if nontriv and len(run.samples) < 3 and run.evaluations % 499 == 5 and any(l['ok'] for l in case['look']):
                 run.samples.append({'mode': case['mode'], 'cls': case['cls'], 'le': case['le'], 'hp': case['hp'],
                                     'names': [ctx.strs[s[0] - 1][:8] for s in case['syms']][:8], 'look': case['look'],
                                     'byname': case['byname']})
